@@ -85,6 +85,7 @@ type c12Run struct {
 	hadOpen   [2]int
 	everOpen  [2]bool
 	wasClosed [2]bool
+	closedAt  [2]time.Duration
 }
 
 func (r *c12Run) task(name string, fn func(t *c12Task)) {
@@ -399,8 +400,24 @@ func (r *c12Run) step() {
 		closed := sesh.VerifClosedFlag()
 		if closed && !r.wasClosed[who] {
 			r.wasClosed[who] = true
+			r.closedAt[who] = now
 			if sesh.TerminalMsg() == "timeout" && r.hadOpen[who] > 0 && !(r.sc.Sess.Singleplex && who == 0) {
 				r.fail("timer:with-open-streams", "side %d closed itself on its inactivity timer at %v while %d streams were open", who, now, r.hadOpen[who])
+			}
+		}
+		if closed && r.closeFn == nil && r.sc.Fault.Kind != "close-c" && r.sc.Fault.Kind != "close-s" && now > r.closedAt[who]+time.Second {
+			// A session that a fault tore down (nothing is sent on that path: no closing
+			// frame, hence nothing that could wait for a slow peer) closes all of its
+			// connections there and then. Time passes in these worlds only when nothing
+			// can run: a connection of it still open a second later is one the teardown
+			// could not close - it is waiting for something a dead path will not deliver.
+			if msg := sesh.TerminalMsg(); msg != "" && msg != "timeout" {
+				for i, l := range r.sw.Links {
+					if !l.Ends[who].IsClosed() {
+						r.fail("teardown:late", "side %d was torn down at %v (%q) but its end of connection %d is still open at %v (fault %+v, dark link %d for %d ms)\n%s", who, r.closedAt[who], msg, i, now, r.sc.Fault, r.sc.Sess.DarkLink-1, r.sc.Sess.DarkMS, r.c.W.DumpTasks())
+						break
+					}
+				}
 			}
 		}
 		if closed {
@@ -450,6 +467,21 @@ func genC12Random(g *Gen) any {
 			sc.Streams = append(sc.Streams, C12Stream{StreamPlan: StreamPlan{SizeClass: g.Int(1, 4), SizeSeed: g.Rng.Uint64(), ReadBuf: 4096, Up: g.Int(0, 3000), Down: g.Int(0, 3000)}})
 		}
 		sc.Fault = C12Fault{Kind: []string{"reset", "eof0", "eof1", "close-c", "close-s"}[g.Rng.IntN(5)], Link: g.Int(0, sc.Sess.NConn-1)}
+		return sc
+	}
+	if g.Bool(0.06) {
+		// one connection of the session is a dead path (nothing arrives, nothing
+		// comes back, for longer than anything waits) and the senders have a
+		// bounded window: writers of the streams assigned to it are parked inside
+		// the connection when a fault on another connection tears the session down
+		n := g.Int(2, 3)
+		sc.Sess = SessParams{Method: byte(g.Int(0, 3)), NConn: n, InactS: 30, Partial: g.Bool(0.3), Window: g.Pick(256, 1024, 4096), WS: g.Bool(0.5)}
+		dark := g.Int(0, n-1)
+		sc.Sess.DarkLink, sc.Sess.DarkMS = dark+1, g.Pick(5000, 20000, 61000)
+		for k := g.Int(2, 5); k > 0; k-- {
+			sc.Streams = append(sc.Streams, C12Stream{StreamPlan: StreamPlan{SizeClass: g.Int(1, 4), SizeSeed: g.Rng.Uint64(), ReadBuf: 4096, Up: g.Int(3000, 20000), Down: g.Int(0, 3000)}})
+		}
+		sc.Fault = C12Fault{Kind: []string{"reset", "eof0", "eof1"}[g.Rng.IntN(3)], Link: (dark + 1 + g.Int(0, n-2)) % n, Dir: g.Int(0, 1), AfterWrite: g.Int(2, 10)}
 		return sc
 	}
 	sc.Sess = genSessParams(g, 4)
